@@ -112,7 +112,7 @@ def plCmd (w : W) (c : Cli) (com : Com) (arg : Bytes) : W × Cli :=
   | .fatal => ({ w with exited := true }, c)
   | .err => plFin w c (codeLine 205 ++ crlf)
   | .ok hl =>
-    let names := expand hl
+    let names := expAliases w.cfg.aliases (expand hl)
     let badNames := names.filter fun n => (find w.cfg.nodes n).isNone
     if !badNames.isEmpty then
       plFin w c (bstr "209 No such nodes: " ++ ofChars (rangedString (badNames.foldl pushHost [])) ++ crlf)
@@ -672,7 +672,7 @@ theorem plCmd_outcome (w : W) (c : Cli) (com : Com) (arg : Bytes) (hidle : c.cmd
     dsimp only
     split
     · refine plFin_outcome w c c _ [] 209 (bstr "No such nodes: " ++ ofChars (rangedString (List.foldl pushHost []
-        (List.filter (fun n => (find w.cfg.nodes n).isNone) (expand hl))))) rfl rfl rfl ?_ (by simp) (by decide) (by decide) (by decide) (.of_data (by simp [Item.lineIn, dataCodesP]))
+        (List.filter (fun n => (find w.cfg.nodes n).isNone) (expAliases w.cfg.aliases (expand hl)))))) rfl rfl rfl ?_ (by simp) (by decide) (by decide) (by decide) (.of_data (by simp [Item.lineIn, dataCodesP]))
       simp [render, Item.render, bstr_209, List.append_assoc]
     · exact install_outcome w c com _ hidle
 
